@@ -125,7 +125,11 @@ class Term(ItemSequenceT[T]):
         # optimize a common case:
         if len(_items) == 1:
             (elem, exp) = _items[0]
-            if isinstance(elem, Rational) or elem.is_base_elem():
+            if isinstance(elem, Rational):
+                # a numeric item with an exponent still has to be folded
+                if exp == 1:
+                    self._normalized = self
+            elif elem.is_base_elem():
                 self._normalized = self
 
     def _reduce_items(self, items: ItemIterableT[T],
